@@ -39,6 +39,7 @@ fn dispatch(prop: &str, rec: &mut Rec) {
         "C15" => checks::c15::run(rec),
         "C16" => checks::c16::run(rec),
         "C17" => checks::c17::run(rec),
+        "C19" => checks::c19::run(rec),
         "C11" => checks::c11::run(rec),
         _ => {
             eprintln!("unknown property {}", prop);
